@@ -23,6 +23,8 @@ TEXT = {
            "DESIGN.md section 4, C08", "property-based testing (rapid): metamorphic relation over generated stream pairs"),
  "C09": _t("generated telemetry timelines with FFC periods of any length; invariant (no motion within 10 s of an FFC nor on the following frame) plus metamorphic pairs sharing the timeline and differing only before an FFC period / reset." + EXPL,
            "DESIGN.md section 4, C09", "property-based testing (rapid): history invariant + metamorphic pairs with a reference-detector witness for non-triviality"),
+ "C10": _t("fault enumeration: generated streams are first run to completion in a child process under strace, which numbers the file-system system calls of the thread running handleConn; the child is then re-run and killed (SIGKILL injected by strace) on entering each of those calls - every call in the thorough tier (typically 50-150 per stream, 32 streams), a stratified sample in the quick tier. After each kill every *.cptv must be a complete recording equal to one of the uncrashed run's, and the real start-up clean-up must leave nothing else. Process kill only; the enumeration is complete per generated stream, streams themselves are sampled.",
+           "DESIGN.md section 3.6 and 4, C10", "crash-point enumeration by fault injection (strace SIGKILL at every file-system call of generated streams) with a decode + reference-run oracle"),
  "C11": _t("generated config.toml files, camera headers and raw streams through the real ParseConfig and handleConn (over a pipe, in lock step); the finished .cptv files are decoded with the standard reader and compared with a twin processor wired by hand from the generated settings (frames, background, telemetry) and with the generated metadata (header round-trip, effective motion settings incl. camera-model defaults, threshold at trigger)." + EXPL,
            "DESIGN.md section 4, C11", "property-based testing (rapid): end-to-end differential against a hand-wired twin + metadata round-trip"),
  "C12": _t("generated event lists x fault plans over every call type of the three sinks; bracket-protocol monitors, panic capture, bounded length under failing writes, and exact recovery on a fault-free suffix." + EXPL,
